@@ -21,6 +21,7 @@ import (
 
 	"verif/internal/gen"
 	"verif/internal/gitx"
+	"verif/internal/obs"
 	"verif/internal/vf"
 	"verif/internal/wtlab"
 )
@@ -100,12 +101,23 @@ func rawBranches(dir string) map[string]string {
 }
 
 type state struct {
-	S   wtlab.Snap
-	Raw map[string]string
+	S       wtlab.Snap
+	Raw     map[string]string
+	RawHead string
 }
 
 func observe(g *gitx.Git, dir string) state {
-	return state{S: wtlab.Take(g, dir), Raw: rawBranches(dir)}
+	s := state{Raw: rawBranches(dir)}
+	s.S.St = obs.Observe(g, dir)
+	s.S.Index = map[string]string{}
+	for _, ln := range s.S.St.Index {
+		if i := strings.IndexByte(ln, '\t'); i > 0 {
+			s.S.Index[ln[i+1:]] = ln[:i]
+		}
+	}
+	b, _ := os.ReadFile(filepath.Join(dir, ".git", "HEAD"))
+	s.RawHead = strings.TrimSpace(string(b))
+	return s
 }
 
 // changedSet compares the property's observables and returns the sorted set of
@@ -115,15 +127,19 @@ func changedSet(pre, post state) ([]string, []string) {
 	var det []string
 	a, b := pre.S.St, post.S.St
 	if post.S.St.GitError != "" && pre.S.St.GitError == "" {
-		set["git-cannot-read"] = true
-		det = append(det, "git error after the call: "+post.S.St.GitError)
+		// git cannot read the repository any more: attribute it to the file that broke
+		if strings.Contains(post.S.St.GitError, "ls-files") || strings.Contains(post.S.St.GitError, "status") {
+			set["index-unreadable"] = true
+		} else {
+			set["refs-unreadable"] = true
+		}
+		det = append(det, "git error after the call: "+strings.TrimSpace(post.S.St.GitError))
 	}
-	if a.Head != b.Head {
+	// HEAD itself: the raw content of .git/HEAD (a destroyed branch file makes git report HEAD as
+	// invalid, but that is a change of the branch, not of HEAD)
+	if pre.RawHead != post.RawHead {
 		set["HEAD"] = true
-		det = append(det, fmt.Sprintf("HEAD %s -> %s", a.Head, b.Head))
-	} else if a.Head == "detached" && a.HeadID != b.HeadID {
-		set["HEAD"] = true
-		det = append(det, fmt.Sprintf("detached HEAD %s -> %s", a.HeadID, b.HeadID))
+		det = append(det, fmt.Sprintf("HEAD %q -> %q", pre.RawHead, post.RawHead))
 	}
 	names := map[string]bool{}
 	for n := range pre.Raw {
@@ -158,8 +174,8 @@ func changedSet(pre, post state) ([]string, []string) {
 			set["branch-created"] = true
 			det = append(det, fmt.Sprintf("branch %s created (%s)", n, qv))
 		case pok && !qok || gok && !hok:
-			set["branch-deleted"] = true
-			det = append(det, "branch "+n+" deleted")
+			set["branch-destroyed"] = true
+			det = append(det, fmt.Sprintf("branch %s deleted or unreadable (file content now %q)", n, qv))
 		case pv != qv || gv != hv:
 			set["branch-moved"] = true
 			det = append(det, fmt.Sprintf("branch %s %s -> %s", n, pv, qv))
@@ -171,10 +187,10 @@ func changedSet(pre, post state) ([]string, []string) {
 	}
 	tracked := map[string]bool{}
 	for p := range pre.S.Index {
-		tracked[strings.SplitN(p, "#", 2)[0]] = true
+		tracked[p] = true
 	}
 	for p := range post.S.Index {
-		tracked[strings.SplitN(p, "#", 2)[0]] = true
+		tracked[p] = true
 	}
 	var tp []string
 	for p := range tracked {
